@@ -27,7 +27,7 @@ def elapse_of(action) -> float:
 
 def unit(job, variant, pi, seed, length):
     rng = random.Random(f"C06:{seed}:{job}:{variant}:{pi}")
-    cmds = random_plan(rng, job, variant, length)
+    cmds = random_plan(rng, job, variant, length, offgrid=True)
     pe = ProbedEngine(job, variant)
     out = {"commands": 0, "plays": 0, "router_calls": 0, "elapsed_events": 0, "failing": [], "kinds": {},
            "zero_elapse": 0, "fractional_elapse": 0, "reqs_actions": [], "expect_actions": [], "delay_cases": [],
@@ -48,12 +48,19 @@ def unit(job, variant, pi, seed, length):
         done = []
         total = Fraction(0)
         exact = True
+        last_play_events: list = []       # the events of the last play, tracked here (console lines have no play)
         for c in cmds:
             viewer = pe.engine.get_current_viewer()
             before = viewer("clock")
-            buffered = pe.engine.get_buffered_events()
+            buffered = last_play_events
+            if simlib.canon(pe.engine.get_buffered_events()) != simlib.canon(last_play_events):
+                out["failing"].append({"kind": "clock", "job": job, "variant": variant,
+                                       "what": "the pending events the engine holds differ from the events of the last play",
+                                       "plan": [command_text(x) for x in done], "next_command": command_text(c)})
             n_plays = len(pe.plays)
             log = pe.engine.exec(c)
+            if log.playlogs:
+                last_play_events = list(log.playlogs[-1].events)
             done.append(c)
             after = pe.engine.get_current_viewer()("clock")
             out["commands"] += 1
